@@ -52,6 +52,10 @@ def bounds(tier):
     return {"shard_counts": [1, 2, 3, 4], "replicate": [1, 2, 3], "depth": 2, "deviation_bound": 1 if tier == "quick" else 2}
 
 
+def PDT(unit):
+    return common.dtype_of(unit["cfg_kw"].get("pdtype", "f32"))
+
+
 def rows_of(n0, S, s):
     """torch.chunk rule along dim 0: chunk size ceil(n0/S)."""
     c = -(-n0 // S)
@@ -76,11 +80,13 @@ def work(tier, seed):
             if tier == "quick" and R * S > 4:
                 continue
             for g in [d for d in range(1, R + 1) if R % d == 0] + [-1]:
-                for comm, cp, (oi, oc) in itertools.product(["FP32", "BF16"], [False, True], enumerate(opt_cfgs())):
+                for comm, cp, (oi, oc) in itertools.product(["FP32", "BF16", "FP16"], [False, True], enumerate(opt_cfgs())):
                     i += 1
-                    if tier == "quick" and (i + seed) % 10 != 0:
+                    if tier == "quick" and (i + seed) % 14 != 0:
                         continue
-                    units.append({"kind": "hybrid", "pset": ps, "R": R, "S": S, "g": g, "comm": comm, "cp": cp, "cfg_kw": oc, "hists": h2 if tier == "thorough" else h2[(i % 3) :: 3], "seed": seed})
+                    # state dtypes: float32 factors (default) or float64 factors / float64 parameters
+                    dts = [("f32", "f32"), ("f32", "f64"), ("f64", "f64")][i % 3]
+                    units.append({"kind": "hybrid", "pset": ps, "R": R, "S": S, "g": g, "comm": comm, "cp": cp, "cfg_kw": dict(oc, pdtype=dts[0], prec_dtype=dts[1]), "hists": h2 if tier == "thorough" else h2[(i % 3) :: 3], "seed": seed})
     core = [[[1, 1, 1], [1, 1, 1]], [[1, 1, 1], [1, 0, 1]], [[0, 0, 1], [1, 1, 0]], [[0, 1, 0], [0, 0, 0]]]
     bound = 1 if tier == "quick" else 2
     for (R, S, g) in [(2, 1, 2), (2, 2, 2), (2, 2, 1)]:
@@ -104,7 +110,7 @@ def local_twin(unit, srank, hist):
     cfg = seq.cfg_with(shapes=shapes, max_dim=3, merge=True, seed=seed, **unit["cfg_kw"])
     params = []
     for (pi, a, b), s in zip(idx, shapes):
-        full = torch.tensor(seq.init_param(pi, tuple(unit["pset"][pi]), seed), dtype=torch.float32).reshape(unit["pset"][pi])
+        full = torch.tensor(seq.init_param(pi, tuple(unit["pset"][pi]), seed), dtype=PDT(unit)).reshape(unit["pset"][pi])
         params.append(torch.nn.Parameter(full[a:b].clone()))
     _, opt = seq.build(cfg, params=params)
     if unit["kind"] == "hybrid":
@@ -128,7 +134,7 @@ def local_twin(unit, srank, hist):
     out = []
     for t, mask in enumerate(hist):
         for (pi, a, b), p in zip(idx, params):
-            g = torch.tensor(seq.grad_value(pi, t, tuple(unit["pset"][pi]), seed), dtype=torch.float32).reshape(unit["pset"][pi])
+            g = torch.tensor(seq.grad_value(pi, t, tuple(unit["pset"][pi]), seed), dtype=PDT(unit)).reshape(unit["pset"][pi])
             p.grad = g[a:b].clone() if mask[pi] else None
         opt.step()
         loc = {pi: p.detach().clone() for (pi, _, _), p in zip(idx, params)}
@@ -163,14 +169,14 @@ def program(unit, hist):
 
         params = []
         for pi, shp in enumerate(unit["pset"]):
-            full = torch.tensor(seq.init_param(pi, tuple(shp), seed), dtype=torch.float32).reshape(shp)
+            full = torch.tensor(seq.init_param(pi, tuple(shp), seed), dtype=PDT(unit)).reshape(shp)
             params.append(torch.nn.Parameter(mk(full, shp)))
         cfg = seq.cfg_with(shapes=[[1]], max_dim=3, merge=True, seed=seed, **unit["cfg_kw"])
         opt = DistributedShampoo(params, distributed_config=dc, **seq.ctor_kwargs(cfg))
         out = []
         for t, mask in enumerate(hist):
             for pi, (p, shp) in enumerate(zip(params, unit["pset"])):
-                g = torch.tensor(seq.grad_value(pi, t, tuple(shp), seed), dtype=torch.float32).reshape(shp)
+                g = torch.tensor(seq.grad_value(pi, t, tuple(shp), seed), dtype=PDT(unit)).reshape(shp)
                 p.grad = mk(g, shp) if mask[pi] else None
             opt.step()
             out.append({pi: p.to_local().detach().clone() for pi, p in enumerate(params)})
@@ -182,7 +188,6 @@ def program(unit, hist):
 def compare_local(got_steps, twin_steps, what):
     import torch
 
-    u = common.UNIT["f32"]
     for t, (g, w) in enumerate(zip(got_steps, twin_steps)):
         for pi, x in g.items():
             if x.numel() == 0:
@@ -195,6 +200,7 @@ def compare_local(got_steps, twin_steps, what):
             if not torch.equal(x, y):
                 scale = max(y.abs().max().item(), 1e-30)
                 err = (x - y).abs().max().item() / scale if x.shape == y.shape else float("inf")
+                u = 2.0 ** -53 if x.dtype == torch.float64 else common.UNIT["f32"]
                 if not err <= 16 * u:
                     return [f"{what}: local shard of parameter {pi} differs from the serial optimizer on that local tensor after step {t} (rel diff {err:.2e})"]
     return []
